@@ -347,8 +347,8 @@ theorem mk_iff (hT : ∀ a b, TyWF a = true → TyWF b = true → tyKey a = tyKe
   · intro o rs y cx cy _
     cases y with
     | vrange o' rs' =>
-      simp only [cmp, Bool.and_eq_true, List.isEmpty_iff, List.all_eq_true] at cx cy
-      simp [mk, mark, kb, veq, rangeStr, cx.1, cy.1, normStr_iff cx.2 cy.2]
+      simp only [cmp, List.all_eq_true] at cx cy
+      simp [mk, mark, kb, veq, normStr_iff cx cy]
     | _ => exact other _ _ cx cy (by simp [kind])
   · intro a n m y cx; simp [cmp] at cx
   · intro n as _ y cx; simp [cmp] at cx
